@@ -141,7 +141,16 @@ def env():
 
 
 def key(s) -> str:
-    return json.dumps(A.struct_repr(s))
+    """Type-matching key of a structure: struct_repr plus the dict keys (which struct_repr, mirroring the model's
+    show_struct, does not print)."""
+    def go(t):
+        ch = A.tree_children(t)
+        if ch is None:
+            return A.struct_repr(t)
+        (k, arg), kids = ch
+        return [k, arg, [go(c) for c in kids]]
+
+    return json.dumps(go(s))
 
 
 _typed = {}
